@@ -8,6 +8,9 @@ CHECKS = {
  "C12": dict(cat="proof", ref="DESIGN.md §5 C12",
    text="Coq theorems over a model of diff::lines, make_diff, ModifiedLines, json/checkstyle line arithmetic and XmlEscaped, for every pair of texts and every context size (no bound); model tied to the code by a correspondence run (exhaustive over small line sequences + seeded random texts) through cfg-guarded hooks; the property's statement is additionally evaluated on the implementation's own results.",
    note="Trusted: Coq kernel + vm_compute; hand-written model (tied by correspondence, not translation); python oracles and json/xml parsers; serde_json escaping and the print/parse round trip of ModifiedLines are checked on the implementation only (not theorems). Known finding class HasXmlForbiddenChar."),
+ "C07": dict(cat="proof", ref="DESIGN.md §5 C07",
+   text="Coq theorems (22) over a faithful model of the FormatLines scanner, track_errors and the exit-code expressions: the reported set equals a declarative set of offending lines (scan_exact, both directions), 1-based sorted line numbers, selected-only / never-skipped, exact characterisation of the two error options, a trailing blank forces exit 1; for every character stream, width and option setting. Tied to the code by a seeded correspondence run through hooks (format_lines on a buffer, FormatReport accessor, CharClasses export); the property's text is re-stated independently in python and evaluated on the implementation's reports.",
+   note="Trusted: Coq kernel; hand-written model; the (kind,char) stream is the implementation's CharClasses output (C03 covers classification); rendering of the report (format_report_formatter) not covered here; deviations of the code from the plain-English property that the proof exposed are listed as _gap lemmas in coq/C07/Props.v and DESIGN.md."),
  "C11": dict(cat="proof", ref="DESIGN.md §5 C11",
    text="Coq theorems (28): version_sort and compare_items are total preorders for all identifiers (no length bound); a stable sort by a total preorder is a sorted permutation, unique and independent of the algorithm, and independent of the input order whenever Equal implies identical; Equal classes of version_sort characterised (equal chunk lists). Tied to the code by a correspondence run (comparison matrices, sort_by results, compare_items on parsed items) through hooks; the preorder laws and permutation-invariance are also evaluated on the implementation end to end (every permutation of generated groups is formatted).",
    note="Trusted: Coq kernel, hand-written model of sort.rs/compare_items (usize = 64 bit), slice::sort_by is a correct stable sort given a total preorder. Ord for UseTree (imports.rs) is not modelled: import ordering is covered only by the end-to-end permutation oracle. Group boundaries (blank lines, macro_use, skip) not covered by this check. Known finding class: identifiers with a digit run >= 2^64."),
